@@ -134,11 +134,14 @@ def validate(v, trace_path, cases_by_id):
         raise vlib.MachineryError("TraceTiming did not consume the whole trace (%d lines)\n%s" % (len(rows), tr.out[-2000:]))
     rep = rep[0]
     seen = {}
+    machinery = []
     for e in rep["viol"]:
         row = rows[e["l"] - 1]
+        e["run"] = row["run"]
         case = cases_by_id.get(e["run"], {})
-        if e["rule"] == "run-error":
-            raise vlib.MachineryError("engine run of case %s failed: %s" % (case.get("desc"), row.get("err")))
+        if e["rule"] in ("run-error", "run-timeout-off"):
+            machinery.append("%s: case %s: %s" % (e["rule"], case.get("desc"), row))
+            continue
         key = (e["rule"], e["run"])
         seen[key] = seen.get(key, 0) + 1
         if seen[key] > 1 or sum(1 for k_ in seen if k_[0] == e["rule"]) > 6:
@@ -156,6 +159,8 @@ def validate(v, trace_path, cases_by_id):
                     replay_obj={"kind": "timing", "rule": e["rule"], "case": case, "line": row,
                                 "events": [r_ for r_ in rows if r_.get("run") == e["run"]]},
                     replay_name="%s_run%d.json" % (e["rule"], e["run"]))
+    if machinery and not v.violations:
+        raise vlib.MachineryError("; ".join(machinery[:3]))
     return rep, rows, tr.distinct
 
 
@@ -167,7 +172,7 @@ def run(tier, v):
     th.start()
     try:
         b = vlib.harness_build()
-        d = vlib.scratch()
+        d = vlib.scratch("c04-timing-")
         n_scripts, n_random, n_walks = (240, 160, 3000) if thorough else (28, 28, 500)
         scripts, nwalks = scripts_from_tlc(n_walks, n_scripts)
         cin = os.path.join(d, "scripts.ndjson")
